@@ -1071,6 +1071,14 @@ def remove_duplicate_functions(source: str, preserve: Collection[str]) -> str:
 
     if node_renamings:
         source = _fix_variable_names(source, node_renamings, preserve)
+        # Renaming moves everything that comes after it on a line, so find the nodes again
+        root = core.parse(source)
+        delete_positions = {(node.name, node.lineno) for node in delete}
+        delete = {
+            node
+            for node in core.filter_nodes(root.body, ast.FunctionDef)
+            if (node.name, node.lineno) in delete_positions
+        }
     if delete:
         source = processing.remove_nodes(source, delete, root)
 
